@@ -1,30 +1,45 @@
 ----------------------------- MODULE Optimizer -----------------------------
 (* C03 / C04: onnxscript.optimizer.optimize on small models.                                      *)
 (*                                                                                                *)
-(* A behaviour BUILDS a model by actions (AddUnary, AddBinConst, AddBin, AddClip, AddCast,        *)
-(* AddTranspose, AddShapeOp, AddReshape, AddExpand, AddUnsqueeze, AddIf, Finish) over integer     *)
-(* valued tensors (Tensor.tla) and then RUNS THE OPTIMIZER PIPELINE of                            *)
-(* onnxscript/optimizer/_optimizer.py:optimize_ir as named steps:                                 *)
+(* A behaviour BUILDS a model by actions (AddUnary, AddDropoutMask, AddCast, AddCastLike,         *)
+(* AddTranspose, AddBinConst, AddBin, AddClip, AddShapeOp, AddReshape, AddExpand, AddUnsqueeze,   *)
+(* AddIf, Finish) over integer valued FLOAT / INT64 / BOOL tensors (Tensor.tla) in one of five    *)
+(* "worlds" (input signatures: static vector, symbolic N incl. a zero-size probe, static matrix,  *)
+(* two inputs with unnamed dims, static rank 3), with constants supplied as Constant nodes,       *)
+(* initializers, OVERRIDABLE initializer-inputs or constant sub-expressions, and then RUNS THE    *)
+(* PIPELINE of onnxscript/optimizer/_optimizer.py:optimize_ir as named steps:                     *)
 (*   FoldVisit     - FoldConstantsPass.process_node on the next node of the main graph: symbolic  *)
-(*                   value input substitution, node-level shape inference, the partial            *)
-(*                   evaluators (PE_xxx), FoldByReference, replace_node/_clear_unused_initializers, *)
-(*                   visit of If branches                                                         *)
+(*                   value input substitution, node-level shape inference (InferOut, with         *)
+(*                   symbolic dims and _merge_shapes), the partial evaluators (operator PE: Cast, *)
+(*                   CastLike, Shape, Size, Gather, Reshape, Squeeze, Expand, Concat, Dropout,    *)
+(*                   Identity, If inlining with initializer moving), FoldByReference (graph-input  *)
+(*                   guard), replace_node / _clear_unused_initializers, visit of If branches       *)
 (*   FoldOutputs   - visit_graph's replacement of graph outputs by equal values                   *)
 (*   RewriteVisit  - RewriteRuleSet._apply_to_graph_or_function on the next node: first rule of   *)
-(*                   _DEFAULT_REWRITE_RULES that matches (Rule_xxx)                                 *)
-(*   DCE           - RemoveUnusedNodesPass (+ unused initializers)                                *)
-(*   NextIter      - PassManager(steps=num_iterations)                                            *)
+(*                   _DEFAULT_REWRITE_RULES that matches (operator Rules: x*1, x+0, x-0,          *)
+(*                   MaterializeReshapeShape, Min/Max fusions and ->Clip, Relu/Clip fusions,      *)
+(*                   CastIdentity, ExpandIdentity, ReshapeReshape, TransposeIdentity,             *)
+(*                   TransposeTranspose, UnsqueezeUnsqueeze), incl. "matched inner node removable" *)
+(*   DCE           - RemoveUnusedNodesPass (+ unused initializers, optional outputs), PassManager *)
+(*                   iteration with early stop                                                    *)
 (*   LiftConstants, LiftSubgraphInits, DedupInits, CSE, OutputFix - the tail of the pipeline      *)
-(* The optimizer steps are computed twice: for the DESIGN (devs = {}: every side condition the    *)
-(* property needs) and for the IMPLEMENTATION MODEL (devs = Deviations: the code as written with  *)
-(* its known defects as named deviations, DESIGN.md 2.5).                                         *)
-(* Properties (checked in EVERY state of the optimizer phase, i.e. after every single step):      *)
-(*   C03 StepPreserves : outputs of the current graph on every probe = outputs of the original    *)
-(*   C04 SigKept       : graph inputs/outputs keep names and order; overridable defaults kept     *)
-(*       NeverRaises   : no step raises                                                           *)
-(*       WellFormed    : Graph!SSA /\ Graph!Scoped after every step                               *)
-(*       OverrideOK    : outputs under an override of every overridable initializer-input         *)
-(* Deviations: see AllDevs.                                                                       *)
+(* Two facts of the IR that decide structure are modelled explicitly: nested graphs of a removed  *)
+(* or inlined If keep using the values they captured (st.ghost), and the DCE inside RewritePass   *)
+(* is not reported as a modification (early stop).                                                *)
+(* Every behaviour first runs the IMPLEMENTATION MODEL (devs = Deviations: the code as written,   *)
+(* known defects as named deviations, DESIGN.md 2.5); if that run took a deviation it is repeated *)
+(* as a run of the DESIGN (DesignRerun, devs = {}).                                               *)
+(* Properties, checked in EVERY state of the optimizer phase, i.e. after every single step, of    *)
+(* every design run and of every implementation run up to its first deviation (PropertyHolds):    *)
+(*   C03 Preserves   : outputs of the current graph on every probe = outputs of the original,     *)
+(*                     incl. probe 4 = overrides of the overridable defaults (C04)                *)
+(*   C04 SigKept     : graph inputs/outputs keep names and order; overridable defaults kept       *)
+(*       NeverRaises : no step raises                                                             *)
+(*       WellFormed  : Graph!SSA /\ Graph!Scoped after every step                                 *)
+(* Mutant # "none" seeds a defect into the design (shows that PropertyHolds can fail).            *)
+(* Not modelled (covered only by the library stage of the harness): sequence ops, Loop, model-    *)
+(* local functions / InlinePass, size gates and should_fold (options select replay variants only),*)
+(* opset imports, generated value names (NameFixPass).                                            *)
 EXTENDS Tensor, Graph, TLC, Json
 
 CONSTANTS Deviations,      \* implementation model: subset of AllDevs
@@ -211,7 +226,7 @@ UnOps0 == IF Rich THEN {"Neg", "Abs", "Relu", "Identity", "Dropout"} ELSE {"Neg"
 UnOps == PickN(6, UnOps0)
 AddUnary == /\ CanAdd
             /\ \E a \in PrimF, op \in UnOps : TryAdd(<<>>, <<>>, <<N1(op, <<a>>, vN)>>)
-AddDropoutMask == /\ CanAdd /\ Rich /\ (Sim => rnd % 4 = 0)
+AddDropoutMask == /\ CanAdd /\ (Sim => rnd % 3 = 0)
                   /\ \E a \in PrimF : TryAdd(<<>>, <<>>, <<Nd("Dropout", <<a>>, <<vN, "m" \o Str(NextId(m0))>>, NoAt, <<>>)>>)
 AddCast == /\ CanAdd
            /\ \E a \in Prim, to \in {"i64", "f32"} :
@@ -301,7 +316,7 @@ AddIf == /\ CanAdd /\ "b" \in InNames(m0)
                    sgT == Branch(bp[1], a, "t", id)
                    sgE == Branch(bp[2], a, "e", id)
                IN /\ \A k \in 1..NP : SubOK(sgT, k) /\ SubOK(sgE, k)
-                  /\ AddWith(c, Nd("If", <<c.nm>>, <<vN>>, NoAt, <<sgT, sgE>>))
+                  /\ AddWith(c, Nd("If", <<c.nm>>, <<vN>>, [NoAt EXCEPT !.axis = Rank(V1(a))], <<sgT, sgE>>))
 -----------------------------------------------------------------------------
 (* ============================ the optimizer ============================== *)
 (* static knowledge the IR keeps per value: element type and (symbolic) shape *)
@@ -809,15 +824,18 @@ ExtraOuts == LET s == m0.main
                  k == (rnd + Len(m0.nodes)) % 10
                  \* slim menus: an initializer whose only consumer is a foldable node may also be returned directly
                  folded == {nm \in ini : \E j \in 1..Len(m0.nodes) : m0.nodes[j].op = "Neg" /\ m0.nodes[j].ins = <<nm>>}
-             IN IF ~Rich THEN folded
-                ELSE IF ~Sim THEN earlier \cup ini \cup {"x"}
-                ELSE IF k < 5 THEN {} ELSE IF k < 8 THEN earlier ELSE IF k = 8 THEN ini ELSE {"x"}
+                 masks == {m0.nodes[j].outs[2] : j \in {j \in 1..Len(m0.nodes) : m0.nodes[j].op = "Dropout" /\ Len(m0.nodes[j].outs) = 2}}
+             IN IF ~Rich THEN folded \cup masks
+                ELSE IF ~Sim THEN earlier \cup masks \cup ini \cup {"x"}
+                ELSE IF k < 5 THEN {} ELSE IF k < 8 THEN earlier \cup masks ELSE IF k = 8 THEN ini ELSE {"x"}
 RECURSIVE SubTy(_)
 SubTy(nodes) == IF nodes = <<>> THEN EmptyF
                 ELSE LET n == Head(nodes)
                          own(sg) == [nm \in {sg.inits[i].name : i \in 1..Len(sg.inits)} |->
                                         LET v == sg.inits[CHOOSE i \in 1..Len(sg.inits) : sg.inits[i].name = nm].val IN [dt |-> v.dt, sh |-> v.shape]]
-                     IN (IF n.sub = <<>> THEN EmptyF ELSE own(n.sub[1]) @@ SubTy(n.sub[1].nodes) @@ own(n.sub[2]) @@ SubTy(n.sub[2].nodes)) @@ SubTy(Tail(nodes))
+                         \* branch outputs are declared FLOAT with n.at.axis unknown dims
+                         decl(sg) == [nm \in {sg.outs[i] : i \in 1..Len(sg.outs)} |-> [dt |-> "f32", sh |-> Unknowns(n.at.axis)]]
+                     IN (IF n.sub = <<>> THEN EmptyF ELSE own(n.sub[1]) @@ decl(n.sub[1]) @@ SubTy(n.sub[1].nodes) @@ own(n.sub[2]) @@ decl(n.sub[2]) @@ SubTy(n.sub[2].nodes)) @@ SubTy(Tail(nodes))
 InitTy(m) == [nm \in {m.ins[i].name : i \in 1..Len(m.ins)} |-> LET r == m.ins[CHOOSE i \in 1..Len(m.ins) : m.ins[i].name = nm] IN [dt |-> r.dt, sh |-> r.ds]]
              @@ [nm \in {m.inits[i].name : i \in 1..Len(m.inits)} |-> LET v == m.inits[CHOOSE i \in 1..Len(m.inits) : m.inits[i].name = nm].val IN [dt |-> v.dt, sh |-> v.shape]]
              @@ SubTy(m.nodes)
